@@ -179,7 +179,7 @@ def replay_one(case):
         if mode != "asis":
             continue
         # the symbolic wrappers take their dimension from inference
-        if len(prog) > 1 and exp_c in ("fin", "irr"):     # (SymPy cannot even print NaN-valued products)
+        if len(prog) > 1 and exp_c in ("fin", "irr") and "nan" not in prog:     # (SymPy cannot even print NaN-valued products)
             for wrapper in (Average, FiniteDifference):
                 try:
                     w = wrapper(expr)
